@@ -276,6 +276,22 @@ type H265RawHRDParameters struct {
 	Vcl_sub_layer_hrd_parameters    [HEVC_MAX_SUB_LAYERS]H265RawSubLayerHRDParameters
 }
 
+func (hrd *H265RawHRDParameters) copyCommonInf(prev *H265RawHRDParameters) {
+	hrd.Nal_hrd_parameters_present_flag = prev.Nal_hrd_parameters_present_flag
+	hrd.Vcl_hrd_parameters_present_flag = prev.Vcl_hrd_parameters_present_flag
+	hrd.Sub_pic_hrd_params_present_flag = prev.Sub_pic_hrd_params_present_flag
+	hrd.Tick_divisor_minus2 = prev.Tick_divisor_minus2
+	hrd.Du_cpb_removal_delay_increment_length_minus1 = prev.Du_cpb_removal_delay_increment_length_minus1
+	hrd.Sub_pic_cpb_params_in_pic_timing_sei_flag = prev.Sub_pic_cpb_params_in_pic_timing_sei_flag
+	hrd.Dpb_output_delay_du_length_minus1 = prev.Dpb_output_delay_du_length_minus1
+	hrd.Bit_rate_scale = prev.Bit_rate_scale
+	hrd.Cpb_size_scale = prev.Cpb_size_scale
+	hrd.Cpb_size_du_scale = prev.Cpb_size_du_scale
+	hrd.Initial_cpb_removal_delay_length_minus1 = prev.Initial_cpb_removal_delay_length_minus1
+	hrd.Au_cpb_removal_delay_length_minus1 = prev.Au_cpb_removal_delay_length_minus1
+	hrd.Dpb_output_delay_length_minus1 = prev.Dpb_output_delay_length_minus1
+}
+
 func (hrd *H265RawHRDParameters) decode(r *bits.Reader,
 	common_inf_present_flag bool, max_num_sub_layers_minus1 int) (err error) {
 	if common_inf_present_flag {
@@ -483,6 +499,11 @@ func (vps *H265RawVPS) Decode(data []byte) (err error) {
 				vps.Cprms_present_flag[i] = r.ReadBit()
 			} else {
 				vps.Cprms_present_flag[0] = 1
+			}
+			if vps.Cprms_present_flag[i] == 0 {
+				// E.2.2: the information common to all sub-layers is not present and
+				// is the same as in the (i-1)-th hrd_parameters()
+				vps.Hrd_parameters[i].copyCommonInf(&vps.Hrd_parameters[i-1])
 			}
 			if err = vps.Hrd_parameters[i].decode(r,
 				vps.Cprms_present_flag[i] == 1,
